@@ -45,6 +45,7 @@ pub async fn stress(addr: std::net::SocketAddr, shared: SharedSystem, op: &Value
     let polls = u(op, "polls");
     let count = u(op, "count").max(1) as u32;
     let seed = u(op, "seed");
+    let chase = op.get("chase").and_then(|v| v.as_bool()).unwrap_or(false);
     let stream = Identifier::numeric(1).unwrap();
     let topic = Identifier::numeric(1).unwrap();
     let mut handles = vec![];
@@ -55,6 +56,7 @@ pub async fn stress(addr: std::net::SocketAddr, shared: SharedSystem, op: &Value
             let mut rng = Lcg(seed ^ (p + 1).wrapping_mul(0x9E3779B97F4A7C15));
             let mut events = vec![];
             let mut next_id = (p + 1) * 1_000_000;
+            let mut cursor = 0u64;
             for _ in 0..batches {
                 let n = 1 + rng.below(max_batch);
                 let ids: Vec<u64> = (0..n).map(|i| next_id + i).collect();
@@ -67,6 +69,21 @@ pub async fn stress(addr: std::net::SocketAddr, shared: SharedSystem, op: &Value
                     Ok(()) => json!({"k": "send", "who": p, "inv": inv, "resp": resp, "ids": ids}),
                     Err(e) => json!({"k": "send_err", "who": p, "inv": inv, "resp": resp, "ids": ids, "err": err_json(&e)}),
                 });
+                if chase {
+                    // read from the own cursor right after the send: aims at the window in which a persisted batch is still on
+                    // its way to the file while newer messages are already buffered
+                    let inv = clock.fetch_add(1, Ordering::SeqCst);
+                    let r = c.poll_messages(&stream, &topic, Some(1), &Consumer::default(), &PollingStrategy::offset(cursor), 1000, false).await;
+                    let resp = clock.fetch_add(1, Ordering::SeqCst);
+                    match r {
+                        Ok(pm) => {
+                            let msgs: Vec<Value> = pm.messages.iter().map(|m| { let id = m.id as u64; json!([m.offset, id, m.payload.as_ref() == payload_for(id, m.payload.len()).as_slice()]) }).collect();
+                            events.push(json!({"k": "poll", "who": 100 + p, "inv": inv, "resp": resp, "offset": cursor, "count": 1000, "msgs": msgs}));
+                            cursor += pm.messages.len() as u64;
+                        }
+                        Err(e) => events.push(json!({"k": "poll_err", "who": 100 + p, "inv": inv, "resp": resp, "offset": cursor, "count": 1000, "err": err_json(&e)})),
+                    }
+                }
                 if rng.below(4) == 0 {
                     tokio::task::yield_now().await;
                 }
